@@ -880,10 +880,11 @@ def corpus(R):
                 if n >= 0:
                     c(A.T4Adv(cc, f, ats=ats, frame_mode="wtx", frame_from=2, wtxm=m, flood_len=n),
                       "t4:FWI %d, %d S(WTX) requests with WTXM %d (limit %d)" % (fwi, n, m, lim))
-    # retransmission requests: exactly n_retry_nak = min(int(1/fwt), 5) R(ACK) are followed, one more is refused
+    # retransmission requests: exactly n_retry_nak + 1 R(ACK) (n_retry_nak = min(int(1/fwt), 5)) are followed, one more is
+    # refused (the retransmission that answers an R(NAK) / R(ACK) pair is always within the limit)
     for fwi, nretry in ((14, 0), (11, 1), (10, 3), (9, 5), (4, 5)):
         ats = bytes([0x05, 0x78, 0x80, fwi << 4, 0x02])
-        for n in (nretry - 1, nretry, nretry + 1):
+        for n in (nretry - 1, nretry, nretry + 1, nretry + 2):
             if n >= 0:
                 c(A.T4Adv(cc, f, ats=ats, frame_mode="ack", frame_from=2, flood_len=n), "t4:FWI %d, %d R(ACK) with the other block number" % (fwi, n))
     # response chaining: chained blocks without INF, a response that ends just below / above 65538 octets
